@@ -172,7 +172,7 @@ def ensure(repo, verif, cfgname, cfg=None, log=None):
             raise RuntimeError('fact extraction produced no fact files (config %s)' % cfgname)
         with open(stamp, 'w') as fh:
             fh.write(json.dumps({'digest': digest, 'files': len(files), 'source_files': nfiles, 'cmd': cmd, 'repo': os.path.abspath(repo)}))
-        prune(os.path.join(cache, "facts"), keep=12, protect=digest)
+        prune(os.path.join(cache, "facts"), keep=48, protect=digest)
     return out, digest, time.time() - t0
 
 
